@@ -2118,6 +2118,11 @@ int32_t pstm_exptmod(psPool_t *pool, const pstm_int *G, const pstm_int *X,
         }
         Memcpy(Mod, pstmnt_const_ptr(P), pstmnt_size_bytes(P));
 
+        /* clear digits of the previous value of Y above the result */
+        for (x = P->used; x < Y->used; x++)
+        {
+            Y->dp[x] = 0;
+        }
         Y->used = P->used;
         if (Y->used > Y->alloc)
         {
